@@ -2,6 +2,7 @@
  *   mix=wait|res|pool|buf|oq|pq|cond|all   object/op mix          faults=0|1|2  none / random / heavy
  *   crowd=1   20-36 processes on one or two objects (crosses the 8 and 16 waiter thresholds)
  *   rec=1     recording steps (C14)
+ *   churn=1   priority churn on one long waiting list (see gen_churn)
  */
 #include "procs.h"
 #include <stdlib.h>
@@ -10,7 +11,7 @@
 typedef struct { const char *op; int w; int kind; } opw;
 enum { K_HOLD = 1, K_TADD, K_TSET, K_TCANCEL, K_TCLEAR, K_YIELD, K_INTR, K_STOP, K_PRIO, K_RESUME, K_START, K_WAITP, K_WAITE,
        K_SCHEV, K_CANEV, K_EXIT, K_STOPSELF, K_ACQ, K_REL, K_PRE, K_PACQ, K_PPRE, K_PREL, K_BPUT, K_BGET, K_QPUT, K_QGET,
-       K_KPUT, K_KGET, K_KCAN, K_KREP, K_CWAIT, K_CSIG, K_SETVAR, K_CCAN, K_CREM, K_GCAN, K_GREM, K_RECON, K_RECOFF, K_BLOCK_RES, K_BLOCK_POOL };
+       K_KPUT, K_KGET, K_KCAN, K_KREP, K_CWAIT, K_CSIG, K_SETVAR, K_CCAN, K_CREM, K_GCAN, K_GREM, K_RECON, K_RECOFF, K_BLOCK_RES, K_BLOCK_POOL, K_REPORT };
 
 static int cfg_has(const char *cfg, const char *key, const char *val)
 {
@@ -42,9 +43,95 @@ static int64_t g_prio(vrng *r, int pmode)
     return pal[vrng_below(r, 9)];
 }
 
+/* churn=1: one long waiting list (5-24 waiters on one resource / pool / buffer side / queue) whose members' priorities are raised and
+ * lowered again and again by two controller processes while waiters keep arriving and the list is served one grant at a time.
+ * The waiter count is biased to the 8 and 16 thresholds at which the list's storage doubles. */
+static void gen_churn(plan *p, vrng *r)
+{
+    const int cls = (int)vrng_below(r, 6);      /* 0 res, 1 pool, 2 buffer getters, 3 buffer putters, 4 object queue getters, 5 priority queue getters */
+    static const int hot[] = { 7, 8, 8, 9, 10, 15, 16, 16, 17, 18 };
+    int nw = vrng_chance(r, 1, 2) ? hot[vrng_below(r, 10)] : 5 + (int)vrng_below(r, 20);
+    const int nctl = 2, np = nw + nctl;
+    const int64_t cap = 1 + (int64_t)vrng_below(r, 3);
+    plan_add(p, "CFG", 8, (int64_t)(np - 1), (int64_t)(cls == 0), (int64_t)(cls == 1), (int64_t)(cls == 2 || cls == 3), (int64_t)(cls == 4), (int64_t)(cls == 5), (int64_t)0, (int64_t)0);
+    int slot[MAXP];
+    for (int i = 0; i < MAXP; i++) slot[i] = i;
+    if (vrng_chance(r, 2, 3)) for (int i = MAXP - 1; i > 0; i--) { const int j = (int)vrng_below(r, (uint64_t)i + 1); const int t = slot[i]; slot[i] = slot[j]; slot[j] = t; }
+    const int wide = (int)vrng_below(r, 3);     /* 0: few priority levels (FIFO ties dominate), 1: many, 2: all distinct at first */
+    for (int i = 0; i < np; i++) {
+        int64_t pr = i < nctl ? 0 : wide == 0 ? vrng_range(r, 0, 2) : wide == 1 ? vrng_range(r, -3, 12) : (int64_t)(3 * i);
+        plan_add(p, "P", 4, (int64_t)i, (int64_t)slot[i], pr, (int64_t)0);
+    }
+    if (cls == 1) plan_add(p, "CAP", 3, (int64_t)1, (int64_t)0, cap);
+    if (cls == 2 || cls == 3) plan_add(p, "CAP", 3, (int64_t)2, (int64_t)0, cap + 1);
+    if (cls == 4) plan_add(p, "CAP", 3, (int64_t)3, (int64_t)0, (int64_t)0);
+    if (cls == 5) plan_add(p, "CAP", 3, (int64_t)4, (int64_t)0, (int64_t)0);
+#define NEWPRIO() (wide == 0 ? vrng_range(r, -1, 3) : vrng_range(r, -6, 3 * np))
+#define WAITER() ((int64_t)(nctl + (int)vrng_below(r, (uint64_t)nw)))
+    /* controller 0: occupy, let the list build, churn, then serve */
+    int n0 = 0;
+    if (cls == 0) { plan_add(p, "ACQ", 2, (int64_t)0, (int64_t)0); n0++; }
+    if (cls == 1) { plan_add(p, "PACQ", 3, (int64_t)0, (int64_t)0, cap - 1); n0++; }
+    if (cls == 3) { plan_add(p, "BPUT", 3, (int64_t)0, (int64_t)0, (int64_t)103); n0++; }
+    plan_add(p, "HOLD", 2, (int64_t)0, (int64_t)(4 + vrng_below(r, 8))); n0++;
+    const int k1 = 2 + (int)vrng_below(r, 9);
+    for (int k = 0; k < k1 && n0 < MAXSTEPS - 8; k++) {
+        plan_add(p, "PRIO", 3, (int64_t)0, WAITER(), NEWPRIO()); n0++;
+        if (vrng_chance(r, 1, 3)) { plan_add(p, "HOLD", 2, (int64_t)0, (int64_t)vrng_below(r, 3)); n0++; }
+    }
+    plan_add(p, "HOLD", 2, (int64_t)0, (int64_t)vrng_below(r, 3)); n0++;
+    if (cls == 0) { plan_add(p, "REL", 2, (int64_t)0, (int64_t)0); n0++; }
+    if (cls == 1) { plan_add(p, "PREL", 3, (int64_t)0, (int64_t)0, cap - 1); n0++; }
+    while (n0 < MAXSTEPS - 3) {
+        if (cls == 2) plan_add(p, "BPUT", 3, (int64_t)0, (int64_t)0, (int64_t)(1 + vrng_below(r, 2)));
+        else if (cls == 3) plan_add(p, "BGET", 3, (int64_t)0, (int64_t)0, (int64_t)(1 + vrng_below(r, 2)));
+        else if (cls == 4) plan_add(p, "QPUT", 3, (int64_t)0, (int64_t)0, (int64_t)0);
+        else if (cls == 5) plan_add(p, "KPUT", 4, (int64_t)0, (int64_t)0, vrng_range(r, 0, 3), (int64_t)0);
+        else plan_add(p, "PRIO", 3, (int64_t)0, WAITER(), NEWPRIO());
+        n0++;
+        plan_add(p, "HOLD", 2, (int64_t)0, (int64_t)vrng_below(r, 3)); n0++;
+        if (vrng_chance(r, 1, 3)) { plan_add(p, "PRIO", 3, (int64_t)0, WAITER(), NEWPRIO()); n0++; }
+    }
+    /* controller 1: keeps churning (and serving) from a later start */
+    int n1 = 0;
+    plan_add(p, "HOLD", 2, (int64_t)1, (int64_t)(3 + vrng_below(r, 12))); n1++;
+    while (n1 < MAXSTEPS - 3) {
+        plan_add(p, "PRIO", 3, (int64_t)1, WAITER(), NEWPRIO()); n1++;
+        if (vrng_chance(r, 1, 2)) { plan_add(p, "HOLD", 2, (int64_t)1, (int64_t)vrng_below(r, 4)); n1++; }
+        if (cls >= 2 && vrng_chance(r, 1, 3)) {
+            if (cls == 2) plan_add(p, "BPUT", 3, (int64_t)1, (int64_t)0, (int64_t)1);
+            else if (cls == 3) plan_add(p, "BGET", 3, (int64_t)1, (int64_t)0, (int64_t)1);
+            else if (cls == 4) plan_add(p, "QPUT", 3, (int64_t)1, (int64_t)0, (int64_t)0);
+            else plan_add(p, "KPUT", 4, (int64_t)1, (int64_t)0, vrng_range(r, 0, 3), (int64_t)0);
+            n1++;
+            plan_add(p, "HOLD", 2, (int64_t)1, (int64_t)vrng_below(r, 2)); n1++;
+        }
+    }
+    /* waiters: arrive early (the list builds up behind the occupant) or late (the list grows after priorities were churned) */
+    for (int i = nctl; i < np; i++) {
+        const int64_t I = i;
+        const int rounds = vrng_chance(r, 1, 5) ? 2 : 1;
+        plan_add(p, "HOLD", 2, I, vrng_chance(r, 1, 4) ? (int64_t)(8 + vrng_below(r, 10)) : (int64_t)(1 + vrng_below(r, 5)));
+        for (int k = 0; k < rounds; k++) {
+            switch (cls) {
+                case 0: plan_add(p, "ACQ", 2, I, (int64_t)0); plan_add(p, "HOLD", 2, I, (int64_t)vrng_below(r, 3)); plan_add(p, "REL", 2, I, (int64_t)0); break;
+                case 1: plan_add(p, "PACQ", 3, I, (int64_t)0, (int64_t)vrng_below(r, (uint64_t)cap)); plan_add(p, "HOLD", 2, I, (int64_t)vrng_below(r, 3)); plan_add(p, "PREL", 3, I, (int64_t)0, (int64_t)5); break;
+                case 2: plan_add(p, "BGET", 3, I, (int64_t)0, (int64_t)(1 + vrng_below(r, 2))); break;
+                case 3: plan_add(p, "BPUT", 3, I, (int64_t)0, (int64_t)(1 + vrng_below(r, 2))); break;
+                case 4: plan_add(p, "QGET", 2, I, (int64_t)0); break;
+                default: plan_add(p, "KGET", 2, I, (int64_t)0); break;
+            }
+            if (rounds == 2) plan_add(p, "HOLD", 2, I, (int64_t)vrng_below(r, 3));
+        }
+    }
+#undef NEWPRIO
+#undef WAITER
+}
+
 void procs_gen(plan *p, uint64_t seed, const char *cfg)
 {
     vrng r; vrng_seed(&r, seed);
+    if (cfg_int(cfg, "churn", 0)) { gen_churn(p, &r); return; }
     const bool all = cfg_has(cfg, "mix", "all") || !strstr(cfg, "mix=");
     const bool m_wait = all || cfg_has(cfg, "mix", "wait");
     const bool m_res = all || cfg_has(cfg, "mix", "res");
@@ -134,6 +221,7 @@ void procs_gen(plan *p, uint64_t seed, const char *cfg)
     if (ncond) { ADD("CWAIT", 14, K_CWAIT); ADD("CSIG", 5, K_CSIG); ADD("SETVAR", 9, K_SETVAR); ADD("CCAN", wf, K_CCAN); ADD("CREM", wf ? 1 : 0, K_CREM); }
     if (nres + npool + nbuf + noq + npq) { ADD("GCAN", wf, K_GCAN); ADD("GREM", wf ? 1 : 0, K_GREM); }
     if (rec) { ADD("RECON", 3, K_RECON); ADD("RECOFF", 2, K_RECOFF); }
+    ADD("REPORT", rec ? 2 : 1, K_REPORT);
     int wsum = 0; for (int i = 0; i < nt; i++) wsum += tab[i].w;
 
     int nsteps[MAXP];
@@ -217,6 +305,7 @@ void procs_gen(plan *p, uint64_t seed, const char *cfg)
                 case K_GREM: plan_add(p, "GREM", 3, I, (int64_t)vrng_below(&r, 12), j); break;
                 case K_RECON: plan_add(p, "RECON", 3, I, (int64_t)vrng_below(&r, 5), (int64_t)vrng_below(&r, 2)); break;
                 case K_RECOFF: plan_add(p, "RECOFF", 3, I, (int64_t)vrng_below(&r, 5), (int64_t)vrng_below(&r, 2)); break;
+                case K_REPORT: plan_add(p, "REPORT", 3, I, (int64_t)vrng_below(&r, 6), (int64_t)vrng_below(&r, 2)); break;
                 default: break;
             }
             emitted++;
@@ -232,7 +321,7 @@ void procs_gen(plan *p, uint64_t seed, const char *cfg)
     /* attached faults: aimed at a victim's in-flight operation, event priority just around the victim's */
     if (faults > 0) {
         const int nf = (int)vrng_below(&r, faults == 1 ? 4 : 10) + (faults == 2 ? 2 : 0);
-        static const int kinds[] = { 1, 1, 1, 2, 3, 4, 5, 6, 6, 7, 8, 9, 10, 1, 2, 3 };
+        static const int kinds[] = { 1, 1, 1, 2, 3, 4, 5, 6, 6, 7, 8, 9, 10, 1, 2, 3, 11, 11, 12, 13 };
         for (int f = 0; f < nf; f++) {
             const int v = (int)vrng_below(&r, (uint64_t)np);
             const int step = (int)vrng_below(&r, (uint64_t)(nsteps[v] > 0 ? nsteps[v] : 1));
